@@ -140,7 +140,9 @@ func flagsSpread(r *Rng, nrand int, all bool) []uint16 {
 // fixed key on every run.
 func signFailed(k *dns.DNSKEY, err error, what string, in any) {
 	if k.KeyTag() == 0 && err == dns.ErrKey {
+		// a recorded finding (one DNSKEY RDATA in 65536 has tag 0): one narrow key, whatever key material hit it
 		st["obs_sign_refused_keytag_zero"]++
+		Viol("C17/Sign/key-tag-zero", "a key whose RFC 4034 Appendix B key tag is 0 generates, exports and re-reads but cannot sign: RRSIG.Sign returns ErrKey (it treats KeyTag == 0 as 'not set')", in)
 		return
 	}
 	Viol("C17/PrivateKey/sign", what, in)
